@@ -191,6 +191,62 @@ def file_events(v, h, tier, rnd):
                 v.nontrivial(("file", U, isidx, len(rec)))
         v.cov.setdefault("files", []).append({"page_size": U, "rows": len(trows), "table_depth": f.depth(m["t"]["rootpage"]),
                                               "index_depth": f.depth(m["tb"]["rootpage"])})
+    # very long overflow chains (hundreds of pages): the number of overflow pages read is judged by TLC (OverflowPages),
+    # the content by its digest (a 300 000-byte record as a TLA+ sequence is out of TLC's reach)
+    import hashlib
+    for U, lens in ((512, [61000, 61438, 126000, 300000]), (1024, [260000, 520000])) if tier == "quick" else \
+            ((512, [61000, 61438, 126000, 300000, 1000000]), (1024, [260000, 520000]), (4096, [4200000]), (65536, [3000000])):
+        path = os.path.join(d, "long%d.db" % U)
+        gen.payload_db(path, U, lens, salt=common.seed() + 1)
+        f = sqlitefmt.DBFile(path)
+        m = {o["name"]: o for o in f.master()}
+        trows = list(f.table_rows(m["t"]["rootpage"]))
+        irows = list(f.index_entries(m["tb"]["rootpage"]))
+        sq_t = gen.oracle_rows(path, "SELECT id, b FROM t ORDER BY id")
+        sq_i = gen.oracle_rows(path, "SELECT b, id FROM t ORDER BY b, id")
+        tnodes, _ = f.tree(m["t"]["rootpage"])
+        inodes, _ = f.tree(m["tb"]["rootpage"])
+        btree_pages = set(tnodes) | set(inodes) | {1}
+        req, out = os.path.join(d, "lreq%d.ndjson" % U), os.path.join(d, "lres%d.ndjson" % U)
+        common.write_ndjson(req, [{"db": path, "mode": "fresh", "ops": [
+            {"id": 0, "op": "table_scan", "table": "t"}, {"id": 1, "op": "index_scan", "index": "tb"},
+            {"id": 2, "op": "select_all", "table": "t", "cols": ["id", "b"]}, {"id": 3, "op": "rowid", "table": "t", "rowid": str(len(lens))}]}])
+        rc, txt, _ = common.run([h, "ops", req, out], timeout=900)
+        if rc != 0:
+            raise common.harness_failure(txt)
+        res = common.read_ndjson(out)
+
+        def dig(vals):
+            return hashlib.sha1(json.dumps([values.to_jval(x) for x in vals]).encode()).hexdigest()
+        for r, rows, sq, isidx in ((res[0], trows, sq_t, False), (res[1], irows, sq_i, True)):
+            name = "table t" if not isidx else "index tb"
+            if r.get("panic") or r.get("err") or r["n"] != len(rows):
+                v.report("c14:scan-failed:long:U=%d:%s" % (U, name), "scan of %s with payloads of %s bytes (page size %d) failed: err=%r panic=%r rows=%d/%d" %
+                         (name, lens, U, r.get("err"), r.get("panic"), r["n"], len(rows)), lambda: save_db("C14", path, "long-U%d" % U))
+                continue
+            window, per_row = [], []
+            for e in r["events"]:
+                if e[0] == "P" and e[1] not in btree_pages:
+                    window.append(e[1])
+                elif e[0] == "C":
+                    per_row.append(window)
+                    window = []
+            for k, row in enumerate(rows):
+                rec, ov = (row[0], row[1]) if isidx else (row[1], row[2])
+                got = [values.from_jval(j) for j in r["rows"][k]]
+                if not isidx:
+                    got = [got[0]] + got[2:]       # rowid, then the record without its NULL placeholder of the alias column
+                want = list(sq[k])
+                if dig(got) != dig(want):
+                    v.report("c14:long-payload:U=%d:%s" % (U, "idx" if isidx else "tab"), "row %d of %s (payload %d bytes, %d overflow pages, page size %d) decoded to other bytes than SQLite returns"
+                             % (k, name, len(rec), len(ov), U), lambda: save_db("C14", path, "long-U%d" % U))
+                events.append({"op": "ovfl", "u": U, "p": len(rec), "idx": isidx, "res": len(per_row[k]), "sq": len(ov)})
+                info.append({"file": path, "U": U, "index": isidx, "row": k, "P": len(rec), "kind": "ovfl", "read": per_row[k][:5], "chain": ov[:5]})
+                v.nontrivial(("long", U, isidx, len(rec)))
+        for r in res[2:]:
+            if r.get("err") or r.get("panic"):
+                v.report("c14:scan-failed:long:U=%d:%s" % (U, r.get("op")), "%s on payloads of %s bytes (page size %d) failed: err=%r panic=%r" %
+                         (r.get("op"), lens, U, r.get("err"), r.get("panic")), lambda: save_db("C14", path, "long-U%d" % U))
     return events, info
 
 
